@@ -170,7 +170,9 @@ class Tensor:
         """
         if F is None: lazy_import()
         if isinstance(data, Tensor):
-            self.copy_from(data); return
+            self.copy_from(data)
+            if requires_grad and gradient__ and not self.requires_grad: self.requires_grad = True # an explicit flag is honoured (and validated) when wrapping a tensor too
+            return
         
         if isinstance(data, np.generic):
             data = np.asarray(data) # numpy scalars (0-d results of reductions, indexing) keep their dtype
